@@ -16,12 +16,15 @@ TIERS = {
 }
 
 
-def run_harness(prop, alpha, tier, seed, scale=1.0, extra='', no_files=False, n=None, versions=None, timeout=3000):
+def run_harness(prop, alpha, tier, seed, scale=1.0, extra='', no_files=False, n=None, versions=None, timeout=3000,
+                rnd_versions=None):
     t = dict(TIERS[tier])
     if n is not None:
         t['n'] = n
     if versions:
         t['versions'] = versions
+    if rnd_versions:
+        t['rnd_versions'] = rnd_versions
     fd, out = tempfile.mkstemp(prefix='pv_%s_' % prop, suffix='.json')
     os.close(fd)
     cmd = [VENV_PY, '-m', 'harness.run', '--prop', prop, '--alpha', alpha or 'none', '--n', str(t['n']),
@@ -70,6 +73,8 @@ def bounded_obligations(report, prop, names, res, functions=()):
     b['rule'] = res['rule']
     b['scope'] = res['scope']
     b['exhaustive'] = False
+    if res.get('pred_stats'):
+        b.setdefault('scope', {})['pred_stats'] = res['pred_stats']
     return res
 
 
